@@ -129,6 +129,21 @@ theorem xml_roundtrip_indented (tag : Bytes) (attrs : List (Bytes × Bytes)) (cs
   obtain ⟨n, h1, h2⟩ := decode_encode_indented tag attrs cs h hs
   exact ⟨n, h1, by rw [h2, normOp_eq_normalize]⟩
 
+/-- `text()` of a decoded result is a function of the tree without identities, so the two round-trip
+    theorems also fix it: `text()` of `decode(encode(t))` is the text at the end of the first-child chain of
+    `normalize t` (the model's `textOf` is the iterative walk of `_Xml::text()` after commit f16a8e9; the
+    walk's call-stack use on deep chains is observed by K: `deep 300000 3`) -/
+theorem xml_text_roundtrip (fmt : Bool) (tag : Bytes) (attrs : List (Bytes × Bytes)) (cs : List Tree)
+    (h : ValidTree (.elem tag attrs cs)) (hs : fmt = true → SoleText (.elem tag attrs cs)) :
+    ∃ n, decode (encode fmt (.elem tag attrs cs)) = .node n ∧ n.textOf = (normalize (.elem tag attrs cs)).textOf := by
+  cases fmt with
+  | false =>
+    obtain ⟨n, h1, h2⟩ := xml_roundtrip_compact tag attrs cs h
+    exact ⟨n, h1, by rw [textOf_erase, h2]⟩
+  | true =>
+    obtain ⟨n, h1, h2⟩ := xml_roundtrip_indented tag attrs cs h (hs rfl)
+    exact ⟨n, h1, by rw [textOf_erase, h2]⟩
+
 /-- non-vacuity: `<a b="&lt;&amp;"> h<c/></a>`-like tree with adjacent and blank text is valid -/
 example : ValidTree (.elem [97] [([98], [60, 38]), ([99, 58], [])] [.text [32], .text [104, 38], .text [], .elem [99] [] [], .text [10]]) := by
   simp [ValidTree, ValidList, NameOK, AttrsOK, NulFree, nameStartBad, nameCharBad, bytesLt]
